@@ -12,6 +12,7 @@ import (
 	auctiontypes "github.com/comdex-official/comdex/x/auction/types"
 	"github.com/comdex-official/comdex/x/auctionsV2"
 	auctionsV2types "github.com/comdex-official/comdex/x/auctionsV2/types"
+	esmtypes "github.com/comdex-official/comdex/x/esm/types"
 )
 
 // TestC11 drives the REAL keepers: generation 1 surplus / debt auctions (x/auction, through its msg
@@ -22,12 +23,21 @@ import (
 // automatically (LimitOrderBid); one "op fill" line per auction closure, then "op block".
 //
 // denom ids in the trace: 0 = uharbor, 1 = ucmst, 2 = uoth.  bidders are 0..nb-1.
+//
+// Emergency shutdown: in 40% of the generation-1 cases (and 10% of the generation-2 ones, whose english
+// hook does not read it) the app's ESM status is switched on (EsmKeeper.SetESMStatus) before one of the
+// ops 0, 1, 2, 3, 5, 8 (in 65% of these cases not before there is a standing bid, waiting at most 12 more
+// ops for one) - so with and without a standing bid - and stays on; from then on the block hooks
+// are emitted as "op esm" (the model's TickEsm).  In 60% of these cases the hook runs at once, in the
+// others the ordinary flow goes on (a bid can land between the switch and the hook).  In 10% of the
+// generation-1 cases the kill switch (BreakerEnable) is on from the start: the closes do not read it.
 
 type c11EngObs struct {
 	found                       bool
 	sell, buy                   sdk.Int
 	bidder, nbids, status       int
 	bidEnd, end                 int64
+	nactive                     int // generation 1: user-bidding records of the auction in the ACTIVE store; -1 = not projected
 }
 
 const c11T0 = int64(1700000000)
@@ -110,6 +120,16 @@ func c11EngCase(t *testing.T, f *c11Fix, tr *tracer, r *rng, ci int, variant str
 			fund(t, a, ctx, f.bidders[i], sdk.NewCoins(sdk.NewCoin(f.c11Denom(lotDenom), sdk.NewInt(r.pickI(5, 100000)))))
 		}
 	}
+	// emergency shutdown / kill switch (drawn for every case: the PRNG stream does not depend on the variant)
+	esmCase := r.chance(40)
+	if !v1 {
+		esmCase = esmCase && r.chance(25)
+	}
+	esmAt := int(r.pickI(0, 1, 2, 3, 5, 8))
+	esmHookAtOnce := r.chance(60)
+	esmWantBid := r.chance(65) // wait (at most 12 more ops) for a standing bid before the switch
+	breaker := r.chance(10) && v1
+	esmOn := false
 	collFunded := !r.chance(12) // V2S: the lot is still where the start put it (or not: the close then fails)
 	tmStarve := r.chance(10)     // tokenmint supply too small for the burn: the close fails
 	f.c11Collector(t, ctx, !rev, lot, debtLot, factor)
@@ -199,6 +219,9 @@ func c11EngCase(t *testing.T, f *c11Fix, tr *tracer, r *rng, ci int, variant str
 		}
 		auctionID = as[0].AuctionId
 	}
+	if breaker {
+		_ = a.EsmKeeper.SetKillSwitchData(ctx, esmtypes.KillSwitchParams{AppId: f.app, BreakerEnable: true})
+	}
 	if tmStarve {
 		td, _ := a.TokenmintKeeper.GetAssetDataInTokenMintByApp(ctx, f.app, f.harbor)
 		a.TokenmintKeeper.UpdateAssetDataInTokenMintByApp(ctx, f.app, f.harbor, false, td.CurrentSupply.Sub(sdk.NewInt(r.pickI(1, 1000, 250000))))
@@ -211,7 +234,7 @@ func c11EngCase(t *testing.T, f *c11Fix, tr *tracer, r *rng, ci int, variant str
 		case "V1S":
 			au, err := a.AuctionKeeper.GetSurplusAuction(ctx, f.app, mappingID, auctionID)
 			if err == nil {
-				o = c11EngObs{true, au.SellToken.Amount, au.Bid.Amount, c11Idx(f, au.Bidder.String()), len(au.BiddingIds), int(au.AuctionStatus), au.BidEndTime.Unix(), au.EndTime.Unix()}
+				o = c11EngObs{true, au.SellToken.Amount, au.Bid.Amount, c11Idx(f, au.Bidder.String()), len(au.BiddingIds), int(au.AuctionStatus), au.BidEndTime.Unix(), au.EndTime.Unix(), 0}
 				if au.Bidder == nil {
 					o.bidder = -1
 				}
@@ -219,7 +242,7 @@ func c11EngCase(t *testing.T, f *c11Fix, tr *tracer, r *rng, ci int, variant str
 		case "V1D":
 			au, err := a.AuctionKeeper.GetDebtAuction(ctx, f.app, mappingID, auctionID)
 			if err == nil {
-				o = c11EngObs{true, au.ExpectedMintedToken.Amount, au.ExpectedUserToken.Amount, c11Idx(f, au.Bidder.String()), len(au.BiddingIds), int(au.AuctionStatus), au.BidEndTime.Unix(), au.EndTime.Unix()}
+				o = c11EngObs{true, au.ExpectedMintedToken.Amount, au.ExpectedUserToken.Amount, c11Idx(f, au.Bidder.String()), len(au.BiddingIds), int(au.AuctionStatus), au.BidEndTime.Unix(), au.EndTime.Unix(), 0}
 				if au.Bidder == nil {
 					o.bidder = -1
 				}
@@ -227,7 +250,7 @@ func c11EngCase(t *testing.T, f *c11Fix, tr *tracer, r *rng, ci int, variant str
 		default:
 			au, err := a.NewaucKeeper.GetAuction(ctx, auctionID)
 			if err == nil {
-				o = c11EngObs{true, au.CollateralToken.Amount, au.DebtToken.Amount, -1, len(au.BiddingIds), 0, au.EndTime.Unix(), au.EndTime.Unix()}
+				o = c11EngObs{true, au.CollateralToken.Amount, au.DebtToken.Amount, -1, len(au.BiddingIds), 0, au.EndTime.Unix(), au.EndTime.Unix(), -1}
 				if au.ActiveBiddingId != 0 {
 					o.status = 1
 					if ub, err := a.NewaucKeeper.GetUserBid(ctx, au.ActiveBiddingId); err == nil {
@@ -239,11 +262,41 @@ func c11EngCase(t *testing.T, f *c11Fix, tr *tracer, r *rng, ci int, variant str
 		if !o.found {
 			o.sell, o.buy = sdk.ZeroInt(), sdk.ZeroInt()
 		}
+		// generation 1: the user-bidding records of this auction that are still in the active store
+		o.nactive = -1
+		if v1 {
+			o.nactive = 0
+			for i := 0; i < nb; i++ {
+				if variant == "V1S" {
+					for _, ub := range a.AuctionKeeper.GetSurplusUserBiddings(ctx, f.bidders[i].String(), f.app) {
+						if ub.AuctionId == auctionID {
+							o.nactive++
+						}
+					}
+				} else {
+					for _, ub := range a.AuctionKeeper.GetDebtUserBiddings(ctx, f.bidders[i].String(), f.app) {
+						if ub.AuctionId == auctionID {
+							o.nactive++
+						}
+					}
+				}
+			}
+		}
 		var sb strings.Builder
-		fmt.Fprintf(&sb, "obs %s %s %s %d %d %d %d %d", b2s(o.found), o.sell, o.buy, o.bidder, o.nbids, o.bidEnd, o.end, o.status)
+		fmt.Fprintf(&sb, "obs %s %s %s %d %d %d %d %d %d", b2s(o.found), o.sell, o.buy, o.bidder, o.nbids, o.bidEnd, o.end, o.status, o.nactive)
 		// MOD COLL EXT TM AUC1 (the generation-1 auction module account: the lot source of V2S; for V1S / V1D it is MOD itself)
 		for _, acc := range []sdk.AccAddress{modAddr(modName), modAddr("collectorV1"), f.ext, modAddr("tokenmint"), modAddr(auctiontypes.ModuleName)} {
 			fmt.Fprintf(&sb, " %s %s", bal(a, ctx, acc, f.c11Denom(bidDenom)), bal(a, ctx, acc, f.c11Denom(lotDenom)))
+		}
+		// NF: the collector's net-fee record of (app, cmst), under the denom id of cmst (1)
+		nf := sdk.ZeroInt()
+		if d, ok := a.CollectorKeeper.GetNetFeeCollectedData(ctx, f.app, f.cmst); ok {
+			nf = d.NetFeesCollected
+		}
+		if bidDenom == 1 {
+			fmt.Fprintf(&sb, " %s 0", nf)
+		} else {
+			fmt.Fprintf(&sb, " 0 %s", nf)
 		}
 		for i := 0; i < nb; i++ {
 			fmt.Fprintf(&sb, " %s %s", bal(a, ctx, f.bidders[i], f.c11Denom(bidDenom)), bal(a, ctx, f.bidders[i], f.c11Denom(lotDenom)))
@@ -269,7 +322,11 @@ func c11EngCase(t *testing.T, f *c11Fix, tr *tracer, r *rng, ci int, variant str
 				res = "panic"
 			}
 		}
-		tr.p("op tick %d %s %s", now, b2s(tmOk), res)
+		if esmOn {
+			tr.p("op esm %d %s %s", now, b2s(tmOk), res)
+		} else {
+			tr.p("op tick %d %s %s", now, b2s(tmOk), res)
+		}
 		o = observe()
 	}
 
@@ -304,6 +361,15 @@ func c11EngCase(t *testing.T, f *c11Fix, tr *tracer, r *rng, ci int, variant str
 			now += int64(r.pickI(0, 1, 10, int64(bidDur)-1, int64(bidDur)/2))
 		default:
 			now += int64(r.intn(12))
+		}
+		if esmCase && !esmOn && k >= esmAt && (!esmWantBid || o.status == 1 || k >= esmAt+12) {
+			// the emergency shutdown of the app is triggered (it stays on)
+			a.EsmKeeper.SetESMStatus(ctx, esmtypes.ESMStatus{AppId: f.app, Status: true})
+			esmOn = true
+			if esmHookAtOnce {
+				doTick()
+				continue
+			}
 		}
 		if r.chance(15) {
 			doTick()
